@@ -308,3 +308,55 @@ func VerifC19ConcurrentFlush() {
 	verifrt.Assert("c19.concurrent-flush.every-call-reaches-every-child", a.flushes == 2 && b.flushes == 2)
 	verifrt.Reach("c19-concurrent-flush")
 }
+
+// vCapsChild: a child whose Capabilities takes a lock (a scheduling point) and answers with
+// capability bits chosen by the solver.
+type vCapsChild struct {
+	vSlowChild
+	caps vCaps
+}
+
+func (c *vCapsChild) Capabilities() tally.Capabilities {
+	c.mu.Lock()
+	defer c.mu.Unlock()
+	return c.caps
+}
+
+// VerifC19ConcurrentCapabilities: two goroutines ask the multi reporter for its capabilities at
+// the same time and read the answer afterwards; each answer must be the conjunction over the
+// children whatever the other caller is doing (every schedule with at most 2 preemptions).
+func VerifC19ConcurrentCapabilities() {
+	a := &vCapsChild{caps: vCaps{verifrt.Bool("reporting"), verifrt.Bool("tagging")}}
+	b := &vCapsChild{caps: vCaps{verifrt.Bool("reporting"), verifrt.Bool("tagging")}}
+	cached := verifrt.Choose("cached", 2) == 1
+	var ask func() tally.Capabilities
+	if cached {
+		ask = NewMultiCachedReporter(a, b).Capabilities
+	} else {
+		ask = NewMultiReporter(a, b).Capabilities
+	}
+	wantR := verifrt.And(a.caps.r, b.caps.r)
+	wantT := verifrt.And(a.caps.t, b.caps.t)
+	var got [2]tally.Capabilities
+	var wg sync.WaitGroup
+	verifrt.Explore(2)
+	wg.Add(2)
+	for i := 0; i < 2; i++ {
+		i := i
+		go func() {
+			defer wg.Done()
+			got[i] = ask()
+			// an answer is read after it was obtained, possibly while the other call runs
+			verifrt.Yield()
+			r, t := got[i].Reporting(), got[i].Tagging()
+			verifrt.Assert("c19.concurrent-capabilities.answer-is-the-conjunction", verifrt.And(r == wantR, t == wantT))
+		}()
+	}
+	wg.Wait()
+	verifrt.StopExplore()
+	for i := 0; i < 2; i++ {
+		verifrt.Assert("c19.concurrent-capabilities.answer-stays-the-conjunction",
+			verifrt.And(got[i].Reporting() == wantR, got[i].Tagging() == wantT))
+	}
+	verifrt.Reach("c19-concurrent-capabilities")
+}
